@@ -136,6 +136,13 @@ def parseCfg (rest : List String) : Option (CvCfg × List String) :=
     | _ => none
   | none => none
 
+/-- parse `k` length-prefixed lists and hand back the remaining tokens -/
+def takeListsRest {α : Type} (p : String → Option α) : Nat → List String → Option (List (List α) × List String)
+  | 0, r => some ([], r)
+  | m + 1, r => match takeList p r with
+    | some (l, r') => (takeListsRest p m r').map (fun (ls, r'') => (l :: ls, r''))
+    | none => none
+
 def handleCv (d : DState) (toks : List String) : DState × String :=
   match toks with
   -- cvfam <intfs> <mv flags> <cap|-> <ops> : calc_cv_vector + the conditions
@@ -171,6 +178,37 @@ def handleCv (d : DState) (toks : List String) : DState × String :=
       | some W => (d, toString (sortMeasure W))
       | none => (d, "bad-op")
     | none => (d, "bad-op")
+  -- sortst <toinit> k then k rows (W) then <trajs: path numbers, -1 = the ghost's ""> <locks 0/1> :
+  -- `sort_trajstate()` on a crafted state (fuel n*n+4 = the bound of the swap counter on the real object)
+  | "sortst" :: ti :: k :: rest =>
+    match parseInt? ti, parseNat? k with
+    | some ti, some k =>
+      match takeListsRest parseRat? k rest with
+      | some (W, r) =>
+        match takeList parseInt? r with
+        | some (tr, r') =>
+          match takeList parseNat? r' with
+          | some (lk, []) =>
+            let trajs0 : List (Option Nat) := tr.map (fun (x : Int) => if x < 0 then none else some x.toNat)
+            let locks0 : List Bool := lk.map (fun (x : Nat) => x != 0)
+            let s : St := { emptySt with n := k, W := W, toinitiate := ti, trajs := trajs0, locks := locks0 }
+            match sortTrajstate (k * k + 4) s with
+            | .error e => (d, showErr e)
+            | .ok (s', it) =>
+              let trs := ",".intercalate (s'.trajs.map showON)
+              (d, s!"W={showMat s'.W} trajs={trs} iters={it}")
+          | _ => (d, "bad-op")
+        | none => (d, "bad-op")
+      | none => (d, "bad-op")
+    | _, _ => (d, "bad-op")
+  -- cvminus <bound> <ops> : calc_cv_vector(minus=True); bound = lambda_minus_one if given else interfaces[0]
+  | "cvminus" :: b :: rest =>
+    match parseInt? b, takeList parseInt? rest with
+    | some b, some (ops, []) =>
+      match WF.cvMinus ops b with
+      | .error e => (d, showErr (cvErr e))
+      | .ok ws => (d, s!"ws={showWs ws}")
+    | _, _ => (d, "bad-op")
   | _ => handle d toks
 
 partial def mainLoopCv (h out : IO.FS.Stream) (d : DState) : IO Unit := do
